@@ -536,7 +536,7 @@ pub fn run(cfg: &Cfg) -> i32 {
     let rep = Reporter::new("C06");
     let mut ev = Evidence::new("C06", cfg);
     let quick = cfg.quick();
-    let max_nest = if quick { 3 } else { 4 }; // includes the boot-level empty input
+    let max_nest = 3; // includes the boot-level empty input
     let n_inputs = make_inputs(quick).len();
     let cap_states: usize = if quick { 20_000 } else { 400_000 };
     let results = std::sync::Mutex::new((0u64, 0u64, BTreeMap::<String, u64>::new(), Vec::<J>::new(), Vec::<String>::new()));
